@@ -35,6 +35,7 @@ func init() {
 		vapiPath + ".Bool":      natNondet(types.Bool),
 		vapiPath + ".Int":       natNondetInt,
 		vapiPath + ".Search":    natSearch,
+		vapiPath + ".UBits":     natUBits,
 		vapiPath + ".Bytes32":   natBytes32,
 		vapiPath + ".Assume":    natAssume,
 		vapiPath + ".Assert":    natAssert,
@@ -177,12 +178,33 @@ func natNondet(k types.BasicKind) nativeFn {
 func natNondetInt(fr *frame, fn *ssa.Function, args []value) value {
 	i := fr.i
 	v := i.nondet(args[0].(string), types.Int)
-	lo, hi := args[1].(int), args[2].(int)
 	if s, ok := v.(sym); ok {
 		tt := i.tt
-		i.assume(tt.And(tt.Cmp("bvsle", tt.Const(64, big.NewInt(int64(lo))), s.t), tt.Cmp("bvsle", s.t, tt.Const(64, big.NewInt(int64(hi))))))
+		i.assume(tt.And(tt.Cmp("bvsle", tt.toTerm(args[1]), s.t), tt.Cmp("bvsle", s.t, tt.toTerm(args[2]))))
+		// structural choices are concretised at once: one path per value
+		c := i.concretize(s.t, "vapi.Int "+args[0].(string))
+		return concreteOf(c, types.Int)
 	}
 	return v
+}
+
+// UBits(name, bits): a uint64 below 2^bits, represented structurally as a
+// zero-extended narrow variable so that arithmetic on it is bit-blasted at
+// the narrow width.
+func natUBits(fr *frame, fn *ssa.Function, args []value) value {
+	i := fr.i
+	bits := args[1].(int)
+	full := i.freshName(args[0].(string))
+	if i.h != nil && i.h.concreteModel != nil {
+		v := new(big.Int)
+		if s, ok := i.h.concreteModel[full]; ok {
+			v.SetString(s, 10)
+		}
+		return v.Uint64()
+	}
+	t := i.tt.Var(full, bits)
+	i.path.nondets = append(i.path.nondets, t)
+	return mkval(i.tt.Zext(t, 64), types.Uint64)
 }
 
 // Search(name, n): a value in [0,n) (natively: a searchable replay variable).
@@ -776,6 +798,18 @@ func natErrorf(fr *frame, fn *ssa.Function, args []value) value {
 	st := zero(elemT).(structure)
 	st[0] = format
 	st[1] = wraps
+	var det []string
+	for _, o := range ops {
+		d := toString(o)
+		if e, ok := o.(iface); ok {
+			d = panicString(i, e)
+		}
+		if len(d) > 300 {
+			d = d[:300]
+		}
+		det = append(det, d)
+	}
+	st[2] = strings.Join(det, " ; ")
 	var cell value = st
 	return iface{t: ptrT, v: &cell}
 }
